@@ -1,6 +1,8 @@
 package checks
 
 import (
+	"google.golang.org/protobuf/types/descriptorpb"
+	"sort"
 	"fmt"
 	"math"
 	"strings"
@@ -825,6 +827,7 @@ func c19(c *Ctx) {
 			}
 		}
 	}
+	c19structural(c)
 	results, validator, err := pyValidate(jobs, docs)
 	if err != nil {
 		c.R.Harness("schema validator unavailable: " + err.Error())
@@ -854,5 +857,95 @@ func c19(c *Ctx) {
 			sampled = true
 			c.R.Sample(map[string]any{"case": p.caseID, "proto": p.msg, "probe_json": p.inst, "field_schema": p.schema, "rules_accept": p.accepts, "schema_accepts": *r.Valid})
 		}
+	}
+}
+
+
+// c19structural: required lists of EVERY component schema of a service whose rule-carrying fields sit inside
+// JSON-mapping constructs (flattened children, oneof variants, list/map elements): a plain object schema
+// lists as required exactly the fields whose own rules require them — whatever was converted before it.
+func c19structural(c *Ctx) {
+	pkg := "c19.structural"
+	u := buildRuleUnitX(pkg, "c19structural", "StructuralRuleService", nil, false)
+	u.f.Services[0].Methods = nil
+	cases := addStructuralRuleCases(u.f, pkg)
+	req, err := spec.Request([]*spec.File{u.f}, nil, "format=json")
+	if err != nil {
+		c.R.Harness(err.Error())
+		return
+	}
+	reg, _ := spec.Files(req)
+	res := c.TB.Run("openapiv3", req, plugin.RunOpt{})
+	c.R.Eval(1)
+	if !res.OK() {
+		c.R.Violate("rules/structural/all", "no-document", res.Crash+res.Error, map[string]any{"proto": u.f.Proto()})
+		return
+	}
+	var doc *oas.Doc
+	for n, ct := range res.Files {
+		d, err := oas.Parse(n, ct)
+		if err != nil {
+			c.R.Violate("rules/structural/all", "unparsable", err.Error(), nil)
+			return
+		}
+		doc = d
+	}
+	if doc == nil {
+		return
+	}
+	label := map[string]string{}
+	for _, sc := range cases {
+		label[sc.msg] = sc.id
+	}
+	fds, _ := reg.FindFileByPath(u.f.Path)
+	if fds == nil {
+		c.R.Harness("c19structural: file not linked")
+		return
+	}
+	msgs := fds.Messages()
+	for i := 0; i < msgs.Len(); i++ {
+		md := msgs.Get(i)
+		name := string(md.Name())
+		id := "rules/structural/required-list/" + name
+		if l, ok := label[name]; ok {
+			id = "rules/structural/required-list/" + l
+		}
+		sch := oas.M(doc.Schemas()[name])
+		if sch == nil {
+			continue
+		}
+		if _, plain := sch["properties"]; !plain || sch["allOf"] != nil || sch["oneOf"] != nil {
+			c.R.Decided(id)
+			continue // composed schemas (flatten parents, flattened oneofs) are judged on the wire (C06)
+		}
+		want := map[string]bool{}
+		for j := 0; j < md.Fields().Len(); j++ {
+			fd := md.Fields().Get(j)
+			if fo, ok := fd.Options().(*descriptorpb.FieldOptions); ok && fo != nil && proto.HasExtension(fo, validate.E_Field) {
+				if proto.GetExtension(fo, validate.E_Field).(*validate.FieldRules).GetRequired() {
+					want[fd.JSONName()] = true
+				}
+			}
+		}
+		got := map[string]bool{}
+		for _, r := range oas.L(sch["required"]) {
+			got[oas.S(r)] = true
+		}
+		var diff []string
+		for k := range want {
+			if !got[k] {
+				diff = append(diff, "missing:"+k)
+			}
+		}
+		for k := range got {
+			if !want[k] {
+				diff = append(diff, "extra:"+k)
+			}
+		}
+		if len(diff) > 0 {
+			sort.Strings(diff)
+			c.R.Violate(id, "required-list-differs", strings.SplitN(diff[0], ":", 2)[0], map[string]any{"message": name, "schema": sch, "difference": diff, "proto": u.f.Proto()})
+		}
+		c.R.Decided(id)
 	}
 }
